@@ -6,6 +6,7 @@ CONSTANTS MaxPre = 2 MaxN = 4
   FlowKinds = {"ctx"}
   Drivers = {"run", "fill", "split"}
   Places = {"alone", "middle"}
+  StopFlag = "per_branch"
   CopyMode = "per_branch"
   Bufs <- BufQuick
 INVARIANT DriversAgree
